@@ -23,6 +23,7 @@ namespace sqf::parser::assembly
     class parser : public ::sqf::runtime::parser::sqf, public CanLog
     {
     private:
+        mutable size_t m_errors = 0;
         ::sqf::runtime::value get_value(::sqf::runtime::runtime& runtime, std::string_view contents, const ::sqf::parser::assembly::bison::astnode& node);
         void to_assembly(::sqf::runtime::runtime& runtime, std::string_view contents, const ::sqf::parser::assembly::bison::astnode& node, std::vector<::sqf::runtime::instruction::sptr>& set);
     public:
@@ -31,6 +32,7 @@ namespace sqf::parser::assembly
         }
         void __log(LogMessageBase&& msg) const
         {
+            ++m_errors; // everything reported through here is an error of the text that is parsed
             log(msg);
         }
         bool get_tree(::sqf::runtime::runtime& runtime, tokenizer& t, bison::astnode* out);
